@@ -72,8 +72,8 @@ TOKENS = ["\\", "u", '"', "'", "0", "3", "4", "7", "8", "a", "n", "s", "\\u005c"
           "u0041", "\\u000d"]
 N_SINGLE = 64
 BLOCK = 0x110000 // N_SINGLE
-N_JBMP = 8
-N_JEXER = 8
+N_JBMP = 4
+N_JEXER = 4
 
 
 def space(ctx):
